@@ -455,6 +455,13 @@ def from_notes_rows(ctx: Ctx) -> None:
     from .common import string_parts as _sp
     from .tables import closed as _closed2, closed_text as _ct2
 
+    # the text buffer everything is written to: the local of from_notes that is bound to StringIO()
+    _fn_outer = pm.parent if getattr(pm, "parent", None) is not None else pm
+    writers_ = sorted({t.id for n in body_walk(_fn_outer.node) if isinstance(n, ast.Assign) and isinstance(n.value, ast.Call) and ast.unparse(n.value) in ("StringIO()", "io.StringIO()")
+                       for t in n.targets if isinstance(t, ast.Name)})
+    require(len(writers_) == 1, f"{_fn_outer.fq}: expected one StringIO() buffer, found {writers_}")
+    WR = writers_[0]
+
     def row_tokens(s_, keep=()):
         """Effects of one path as tokens: ('for', line, iterable) / ('row', loops, source|'blank') / ('bind', loops, text) / ('?', text)."""
         toks = []
@@ -483,7 +490,7 @@ def from_notes_rows(ctx: Ctx) -> None:
                     else:
                         ok = False
                 seq = []
-                while j < len(effs) and effs[j].kind == "expr" and effs[j].loops == loops0 and ast.unparse(effs[j].value).startswith("notedata.write("):
+                while j < len(effs) and effs[j].kind == "expr" and effs[j].loops == loops0 and ast.unparse(effs[j].value).startswith(f"{WR}.write("):
                     parts = _sp(effs[j].value.args[0]) if len(effs[j].value.args) == 1 else None
                     if parts is None:
                         ok = False
@@ -714,11 +721,21 @@ def counting_tables(ctx: Ctx) -> None:
         ok = got == {(want_args, mn_want)}
         ctx.expect("R-TABLE", f_, f"{fn_name} = count_grouped_notes(group_notes(notes, types, mode) without joining, minimum {mn_want})", ok, "", f"{fn_name} returns {sorted(got, key=str)}", node=f_.node)
     # count_grouped_notes / count_mines: a counter incremented exactly under the documented condition, once per element
-    def counter_rule(fn: FunctionInfo, cond_of, title: str, why: str) -> None:
+    def counter_rule(fn: FunctionInfo, cond_of, title: str, why: str, grouping_is_wrong: bool = False) -> None:
         from .tables import judge as tjudge, loop_decs, sums_of as tsums, resolved
         sums = tsums(ctx, fn)
         it = fn.param_names()[0]
         loops = {(ast.unparse(e.target), e.line) for s_ in sums for e in s_.effects if e.kind == "for" and ast.unparse(e.value) == it}
+        if not loops:
+            # no pass over the stream here: the stream is handed to another counter / grouper of the package
+            for s_ in sums:
+                for e in s_.effects:
+                    for c_ in [n for x in (e.value, e.target) if isinstance(x, ast.AST) for n in ast.walk(x) if isinstance(n, ast.Call)]:
+                        cn = callee_name(ctx, fn, c_)
+                        if cn.startswith("simfile.") and any(isinstance(a, ast.Name) and a.id == it for a in list(c_.args) + [k.value for k in c_.keywords]):
+                            if grouping_is_wrong:
+                                ctx.bad("R-TABLE", fn, title, f"{fn.name} hands the stream to {cn.split(':')[-1]}(): that counts groups of notes sharing a beat, not single notes - " + why, node=fn.node)
+                                return
         if len(loops) != 1:
             raise AnalysisError(f"{fn.fq}: expected one pass over '{it}', found {sorted(loops)}")
         v, line = next(iter(loops))
@@ -743,7 +760,7 @@ def counting_tables(ctx: Ctx) -> None:
     cg = p.func(f"{mod}:count_grouped_notes")
     counter_rule(cg, lambda v: f"len({v}) >= same_beat_minimum", "a group counts iff it has at least 'same_beat_minimum' notes (>=)", "documented: groups of at least same_beat_minimum notes")
     cm = p.func(f"{mod}:count_mines")
-    counter_rule(cm, lambda v: f"{v}.note_type == NoteType.MINE", "count_mines counts notes whose type is MINE, singly", "documented: every MINE note counts once")
+    counter_rule(cm, lambda v: f"{v}.note_type == NoteType.MINE", "count_mines counts notes whose type is MINE, singly", "documented: every MINE note counts once", grouping_is_wrong=True)
     # holds / rolls
     hr = p.func(f"{mod}:_count_holds_or_rolls")
     gc = [c for c in calls(hr) if callee_name(ctx, hr, c) == "simfile.notes.group:group_notes"]
